@@ -10,6 +10,6 @@ git -C /repo worktree remove --force $R 2>/dev/null; git -C /repo worktree prune
 if ! git -C $R apply $PATCH 2>/dev/null; then echo "$PATCH APPLY-FAILED"; else
 for prop in $CHECKS; do
   out=$(VERIF_DIR=$S VERIF_REPO=$R VERIF_OUT=$O $S/run.sh $prop quick 2>&1); rc=$?
-  if [ $rc -ne 0 ]; then echo "$PATCH $prop rc=$rc $(echo "$out" | grep -o 'kind=[a-z-]*' | sort -u | tr '\n' ' ') :: $(echo "$out" | grep -m2 -A2 '^VIOLATION\|HARNESS' | tr '\n' ' ' | cut -c1-500)"; fi
+  if [ $rc -ne 0 ]; then mkdir -p /tmp/benlogs/fail; cp -r $O/replays/$prop /tmp/benlogs/fail/$(basename $(dirname $(dirname $(dirname $PATCH))))-$(basename $(dirname $PATCH))-$prop 2>/dev/null; echo "$PATCH $prop rc=$rc $(echo "$out" | grep -o 'kind=[a-z-]*' | sort -u | tr '\n' ' ') :: $(echo "$out" | grep -m2 -A2 '^VIOLATION\|HARNESS' | tr '\n' ' ' | cut -c1-500)"; fi
 done; echo "$PATCH done"; fi
 git -C /repo worktree remove --force $R; rm -rf $O $S
